@@ -38,7 +38,9 @@ def variant_params(draw, need_h=False, max_res=60):
             # into pieces separated by gaps of a few residues (bulge candidates) and creates isolated bridges and short helices
             "kicks": draw(st.lists(st.tuples(st.integers(0, nres - 1), st.sampled_from(["O", "N", "O", "C"]),
                                              st.sampled_from([0.15, 0.25, 0.4])), max_size=6)),
-            "extras": draw(st.booleans()), "rseed": draw(st.integers(0, 2 ** 31))}
+            "extras": draw(st.booleans()), "rseed": draw(st.integers(0, 2 ** 31)),
+            # order of the atoms inside every residue: as in the seed file (heavy atom before its hydrogens), or not
+            "atom_order": draw(st.sampled_from(["native", "native", "native", "reversed", "hydrogens-first", "shuffled"]))}
 
 
 def build(p):
@@ -53,6 +55,18 @@ def build(p):
     chain = top.add_chain()
     drop = {(i, nm) for i, nm in (tuple(x) for x in p["drop_atoms"])}
     extras_src = [r for r in base.topology.residues if not r.is_protein][:6] if p["extras"] else []
+    rng_order = np.random.Generator(np.random.PCG64(p["rseed"] + 99))
+
+    def ordered(r):
+        atoms_r = list(r.atoms)
+        mode = p.get("atom_order", "native")
+        if mode == "reversed":
+            atoms_r.reverse()
+        elif mode == "hydrogens-first":
+            atoms_r.sort(key=lambda a: a.element.symbol != "H")
+        elif mode == "shuffled":
+            atoms_r = [atoms_r[i] for i in rng_order.permutation(len(atoms_r))]
+        return atoms_r
     for k, r in enumerate(prot):
         if k in p["split_at"]:
             chain = top.add_chain()
@@ -63,7 +77,7 @@ def build(p):
         if k in p["delete_res"] and p["nres"] - len(p["delete_res"]) >= 4:
             continue
         nr = top.add_residue(r.name, chain, resSeq=r.resSeq)
-        for a in r.atoms:
+        for a in ordered(r):
             if (k, a.name) in drop:
                 continue
             top.add_atom(a.name, a.element, nr)
@@ -72,7 +86,7 @@ def build(p):
         ch = top.add_chain()
         for r in extras_src:
             nr = top.add_residue(r.name, ch, resSeq=r.resSeq)
-            for a in r.atoms:
+            for a in ordered(r):
                 top.add_atom(a.name, a.element, nr)
                 keep.append(("old", a.index))
     # bonds among kept old atoms
